@@ -2,7 +2,6 @@ package compiler
 
 import (
 	"fmt"
-	"strconv"
 
 	"github.com/kyleconroy/sqlc/internal/sql/ast"
 	"github.com/kyleconroy/sqlc/internal/sql/astutils"
@@ -124,7 +123,7 @@ func resolveCatalogRefs(c *catalog.Catalog, rvs []*ast.RangeVar, args []paramRef
 					alias = items[0]
 					key = items[1]
 				default:
-					panic("too many field items: " + strconv.Itoa(len(items)))
+					return nil, fmt.Errorf("column reference %q has too many parts", astutils.Join(left.Fields, "."))
 				}
 
 				search := tables
